@@ -16,6 +16,7 @@ type Field struct {
 	Ty   string            `json:"ty"`   // result type, GraphQL notation: [String!]!
 	Args map[string]string `json:"args"` // name -> "Type" or "Type = default"
 	Dep  string            `json:"dep"`  // "" | "-" (deprecated without reason) | reason
+	Desc string            `json:"desc"`
 }
 
 type Type struct {
@@ -25,6 +26,8 @@ type Type struct {
 	Values  []string          `json:"values"`  // enum values (sorted)
 	Members []string          `json:"members"` // union members (sorted)
 	Impl    []string          `json:"impl"`    // implemented interfaces other than Node (sorted)
+	Desc    string            `json:"desc"`
+	ValDep  map[string]string `json:"valdep"` // deprecated enum values: value -> "-" | reason
 	Order   []string          `json:"-"`
 }
 
@@ -39,6 +42,21 @@ type Schema struct {
 	Roots      map[string]map[string]*Field `json:"roots"` // Query / Mutation / Subscription -> fields (without node)
 	HasNode    bool                         `json:"hasNode"`
 	Directives map[string]*Directive        `json:"directives"`
+	RootNames  map[string]string            `json:"rootNames"` // Query/Mutation/Subscription -> type name in this schema
+}
+
+func (s *Schema) rootName(r string) string {
+	if n := s.RootNames[r]; n != "" {
+		return n
+	}
+	return r
+}
+
+func descBlock(indent, d string) string {
+	if d == "" {
+		return ""
+	}
+	return indent + "\"\"\"" + d + "\"\"\"\n"
 }
 
 func sortedKeys(m map[string]*Field) []string {
@@ -51,7 +69,7 @@ func sortedKeys(m map[string]*Field) []string {
 }
 
 func renderField(name string, f *Field) string {
-	s := "  " + name
+	s := descBlock("  ", f.Desc) + "  " + name
 	if len(f.Args) > 0 {
 		var names []string
 		for a := range f.Args {
@@ -108,13 +126,26 @@ func (s *Schema) SDL() string {
 	sort.Strings(names)
 	for _, t := range names {
 		td := s.Types[t]
+		b.WriteString(descBlock("", td.Desc))
 		switch td.Kind {
 		case "SCALAR":
 			b.WriteString("scalar " + t + "\n\n")
 		case "UNION":
 			b.WriteString("union " + t + " = " + strings.Join(td.Members, " | ") + "\n\n")
 		case "ENUM":
-			b.WriteString("enum " + t + " {\n  " + strings.Join(td.Values, "\n  ") + "\n}\n\n")
+			b.WriteString("enum " + t + " {\n")
+			for _, v := range td.Values {
+				b.WriteString("  " + v)
+				if r, ok := td.ValDep[v]; ok {
+					if r == "-" {
+						b.WriteString(" @deprecated")
+					} else {
+						b.WriteString(fmt.Sprintf(" @deprecated(reason: %q)", r))
+					}
+				}
+				b.WriteString("\n")
+			}
+			b.WriteString("}\n\n")
 		default:
 			kw := map[string]string{"OBJECT": "type", "INTERFACE": "interface", "INPUT_OBJECT": "input"}[td.Kind]
 			head := kw + " " + t
@@ -148,7 +179,7 @@ func (s *Schema) SDL() string {
 		if root != "Query" && len(fs) == 0 {
 			continue
 		}
-		b.WriteString("type " + root + " {\n")
+		b.WriteString("type " + s.rootName(root) + " {\n")
 		if root == "Query" && s.HasNode {
 			b.WriteString("  node(id: ID!): Node\n")
 		}
@@ -156,6 +187,22 @@ func (s *Schema) SDL() string {
 			b.WriteString(renderField(f, fs[f]))
 		}
 		b.WriteString("}\n\n")
+	}
+	custom := false
+	for _, r := range []string{"Query", "Mutation", "Subscription"} {
+		if s.rootName(r) != r {
+			custom = true
+		}
+	}
+	if custom {
+		b.WriteString("schema {\n  query: " + s.rootName("Query") + "\n")
+		if len(s.Roots["Mutation"]) > 0 {
+			b.WriteString("  mutation: " + s.rootName("Mutation") + "\n")
+		}
+		if len(s.Roots["Subscription"]) > 0 {
+			b.WriteString("  subscription: " + s.rootName("Subscription") + "\n")
+		}
+		b.WriteString("}\n")
 	}
 	return b.String()
 }
@@ -169,7 +216,7 @@ func isBuiltinScalar(n string) bool {
 }
 
 func absField(fd *ast.FieldDefinition) *Field {
-	f := &Field{Ty: fd.Type.String(), Args: map[string]string{}}
+	f := &Field{Ty: fd.Type.String(), Args: map[string]string{}, Desc: fd.Description}
 	for _, a := range fd.Arguments {
 		s := a.Type.String()
 		if a.DefaultValue != nil {
@@ -192,12 +239,20 @@ func absField(fd *ast.FieldDefinition) *Field {
 // Abs projects a gqlparser schema to the abstract view (built-ins and the Node interface left out;
 // the `node` root field reported through HasNode).
 func Abs(sch *ast.Schema) *Schema {
-	out := &Schema{Types: map[string]*Type{}, Roots: map[string]map[string]*Field{}, Directives: map[string]*Directive{}}
+	out := &Schema{Types: map[string]*Type{}, Roots: map[string]map[string]*Field{}, Directives: map[string]*Directive{}, RootNames: map[string]string{}}
+	rootOf := map[string]string{}
+	for r, d := range map[string]*ast.Definition{"Query": sch.Query, "Mutation": sch.Mutation, "Subscription": sch.Subscription} {
+		if d != nil {
+			rootOf[d.Name] = r
+			out.RootNames[r] = d.Name
+		}
+	}
 	for name, def := range sch.Types {
 		if strings.HasPrefix(name, "__") || isBuiltinScalar(name) || name == "Node" {
 			continue
 		}
-		if name == "Query" || name == "Mutation" || name == "Subscription" {
+		if r, isRoot := rootOf[name]; isRoot {
+			name = r
 			fs := map[string]*Field{}
 			for _, fd := range def.Fields {
 				if strings.HasPrefix(fd.Name, "__") {
@@ -212,7 +267,7 @@ func Abs(sch *ast.Schema) *Schema {
 			out.Roots[name] = fs
 			continue
 		}
-		t := &Type{Kind: string(def.Kind), Fields: map[string]*Field{}, Values: []string{}, Members: []string{}, Impl: []string{}}
+		t := &Type{Kind: string(def.Kind), Fields: map[string]*Field{}, Values: []string{}, Members: []string{}, Impl: []string{}, Desc: def.Description, ValDep: map[string]string{}}
 		for _, i := range def.Interfaces {
 			if i == "Node" {
 				t.Node = true
@@ -232,6 +287,12 @@ func Abs(sch *ast.Schema) *Schema {
 		}
 		for _, v := range def.EnumValues {
 			t.Values = append(t.Values, v.Name)
+			if d := v.Directives.ForName("deprecated"); d != nil {
+				t.ValDep[v.Name] = "-"
+				if r := d.Arguments.ForName("reason"); r != nil && r.Value != nil {
+					t.ValDep[v.Name] = r.Value.Raw
+				}
+			}
 		}
 		sort.Strings(t.Values)
 		t.Members = append(t.Members, def.Types...)
@@ -304,6 +365,12 @@ func (s *Schema) Fill() *Schema {
 		if t.Impl == nil {
 			t.Impl = []string{}
 		}
+		if t.ValDep == nil {
+			t.ValDep = map[string]string{}
+		}
+	}
+	if s.RootNames == nil {
+		s.RootNames = map[string]string{}
 	}
 	for _, d := range s.Directives {
 		if d.Args == nil {
